@@ -83,7 +83,8 @@ func raceCase1(c raceCase, nonce string) (tr *trace, err error) {
 	}()
 	mk := func(op string) event {
 		return event{Op: op, Names: []string{}, Path: []string{}, Rb: []string{}, Mem: map[string]map[string][]string{},
-			Lims: []limit{}, Allowed: map[string]string{}}
+			Lims: []limit{}, Allowed: map[string]string{}, Thr: map[string]map[string][][]string{}, Ten: []tenant{}, Self: l.place("/proc/self/cgroup"),
+			Nthr: map[string]int{}, Pcur: []limit{}}
 	}
 	base, err := cgroup.New(l.apiPrefix(), l.controllers())
 	if err != nil {
